@@ -211,8 +211,8 @@ Qed.
 
 (* ---- finding 3: intermediate name collision (corpus/C03/builds.json[2], the layering) ---- *)
 Definition w3_layer : layer :=
-  Layer "" "dev-" "" [
-    ISub (Layer "" "" "-s" [
+  Layer "" "dev-" "" [] [
+    ISub (Layer "" "" "-s" [] [
       IRes (fresh (doc "v1" "ServiceAccount" "a" []));
       IRes (fresh (doc "v1" "ServiceAccount" "a-s" []))]);
     IRes (fresh (doc "v1" "Pod" "pod" [("spec", Map [("serviceAccountName", sc "a-s")])]))].
@@ -823,7 +823,7 @@ Qed.
 
 (* non-vacuity of the build-level theorem: one kustomization, namePrefix p-, a ConfigMap and a Pod mounting it *)
 Definition ex_layer : layer :=
-  Layer "" "p-" "" [IRes (fresh (doc "v1" "ConfigMap" "cm" []));
+  Layer "" "p-" "" [] [IRes (fresh (doc "v1" "ConfigMap" "cm" []));
                     IRes (fresh (doc "v1" "Pod" "pod" [("spec", Map [("volumes", Seq [Map [("configMap", Map [("name", sc "cm")])]])])]))].
 Definition ex_hs : list string := [""; ""].
 Definition ex_m : list resource := unres (gen_build_names no_cs no_nonstr ex_layer ex_hs).
